@@ -20,6 +20,7 @@ From V Require Import Gen.Nodes Gen.TableRows Spec.Valid.
 From V Require Import Gen.CmGen Model.Cm Spec.CmSpec.
 From V Require Import Spec.SourcePos Spec.SourcePosKnown.
 From V Require Import Base.Regex Base.Re2c Gen.ScannersRe Model.Scan.
+From V Require Import Model.StrLeafApi.
 From V Require Import Spec.Doc.
 From V Require Import Gen.Consts Model.Caps.
 From V Require Import Gen.Special Model.Special Spec.Triggers.
@@ -242,6 +243,37 @@ Extraction "model.ml"
   Regex.longest_match
   Re2c.rule_re
   ScannersRe.scanner_rules
+  StrLeafApi.sl_unescape
+  StrLeafApi.sl_clean_autolink
+  StrLeafApi.sl_normalize_code
+  StrLeafApi.sl_remove_trailing_blank_lines
+  StrLeafApi.sl_is_line_end_char
+  StrLeafApi.sl_is_space_or_tab
+  StrLeafApi.sl_chop_trailing_hashtags
+  StrLeafApi.sl_rtrim
+  StrLeafApi.sl_ltrim
+  StrLeafApi.sl_trim
+  StrLeafApi.sl_ltrim_slice
+  StrLeafApi.sl_rtrim_slice
+  StrLeafApi.sl_trim_slice
+  StrLeafApi.sl_shift_buf_left
+  StrLeafApi.sl_clean_url
+  StrLeafApi.sl_clean_title
+  StrLeafApi.sl_is_blank
+  StrLeafApi.sl_normalize_label
+  StrLeafApi.sl_trim_start_match
+  StrLeafApi.sl_entity_unescape
+  StrLeafApi.sl_entity_lookup
+  StrLeafApi.sl_unescape_html
+  StrLeafApi.sl_manual_scan_link_url
+  StrLeafApi.sl_manual_scan_link_url_2
+  StrLeafApi.sl_validate_protocol
+  StrLeafApi.sl_check_domain
+  StrLeafApi.sl_is_valid_hostchar
+  StrLeafApi.sl_autolink_delim
+  StrLeafApi.sl_unescape_pipes
+  StrLeafApi.sl_parse_list_marker
+  StrLeafApi.sl_scan_thematic_break_inner
   Doc.canonical
   Doc.write
   Doc.ref_html
